@@ -733,7 +733,9 @@ JEditState(e, st) ==
       got == StOfJson(e.out.st)
       s2 == Put(st, e.s, [kind |-> "state", st |-> got, hdr |-> st[e.s].hdr])
   IN  IF ~Has(e.out, "st") THEN Fail("EditState:exception", st)
-      ELSE IF StJsonClean(e.out.st) /\ StEq(want, got) /\ e.out.st.hdr = st[e.s].hdr THEN Ok(s2)
+      ELSE IF /\ StJsonClean(e.out.st) /\ StEq(want, got) /\ e.out.st.hdr = st[e.s].hdr
+              /\ (e.how = "set" => got.ex[<<e.f, e.a>>] = e.x)        \* the value that was set, exactly
+           THEN Ok(s2)
       ELSE Fail("EditState:content", s2)
 
 JStateEq(e, st) ==
